@@ -29,6 +29,21 @@ class MustWritten(Component):
                 st.comp[self.name] = st.comp[self.name] | {ev.loc}
 
 
+class MustTouched(Component):
+    """locations written (rebound or modified in place) on every path so far."""
+    name = "musttouch"
+
+    def init(self, interp):
+        return frozenset()
+
+    def join(self, a, b):
+        return a & b
+
+    def on_event(self, interp, st, ev):
+        if ev.type == "write":
+            st.comp[self.name] = st.comp[self.name] | {ev.loc}
+
+
 class ReadBeforeWrite(Component):
     """records attributes read while not yet (must-)written in this entry: such attributes are
     persistent state; attributes never read that way are scratch (derived, not declared)."""
@@ -163,6 +178,7 @@ class DirtyCache(Component):
         self.provisional = []    # dirty reads awaiting an own-update write of the same statement
         self.facts = []          # discharged covariant updates etc. (for evidence)
         self.detseen = {}
+        self.det_stmt = {}
         self.rot_sites = []
 
     # state: dict key=(oid, cache, part) -> status
@@ -271,6 +287,19 @@ class DirtyCache(Component):
             tgt = ev.target
             if tgt.extra and isinstance(tgt.extra, tuple) and tgt.extra[0] == "eigvecs":
                 state["__det"] = state["__det"] | {id(tgt.extra[1])}
+                self.det_stmt[id(tgt.extra[1])] = ev.f.get("stmt")
+            return
+        if t == "augassign":
+            # an in-place change of the eigenvector matrix outside the branch guarded by its determinant test
+            # (e.g. per-column sign conventions applied afterwards) undoes the normalisation
+            name = ev.target.split("[")[0]
+            cur = st.env.get(name)
+            if cur is not None and cur.extra and isinstance(cur.extra, tuple) and cur.extra[0] == "eigvecs":
+                eid = id(cur.extra[1])
+                guard = self.det_stmt.get(eid)
+                inside = guard is not None and any(n is ev.node for n in ast.walk(guard))
+                if not inside:
+                    state["__det"] = state["__det"] - {eid}
             return
         if t == "invalidate":
             oid, attr = ev.loc
